@@ -160,6 +160,7 @@ def execute(case, scratch):
                                         [editions[j][1]["kind"] for j in range(earlier[-1] + 1, ei + 1)], info["kind"], info.get("target_is"),
                                         info.get("target"), info.get("delivery")),
                                     symptom="stale", edit_kinds=since, delivery=info.get("delivery"),
+                                    held_clone=case.get("pres") == "held-clone",
                                     via_hidden_plain=any(progs.hidden_plain_reachable(ed[0], key.split(".")[1]) for ed in editions),
                                     clone_root_hidden=[r[2] for r in roots if r[1] == key.split(".")[1]][0] != "direct"
                                     and any(progs.has_hidden(ed[0], key.split(".")[1]) for ed in editions))
